@@ -24,5 +24,6 @@ def run(ctx, rep):
     _builtins.run(F, rep, "C14.builtin", "str+num")
     _strunits.run(F, rep)
     _strunits.strip_once(F, rep)
+    _strunits.marker_radix(F, rep)
     if _casts is not None:
         _casts.run_c14(F, rep)
